@@ -60,6 +60,10 @@ var contentTypes = []*string{
 	sp("text/xml; charset=\"utf-8\""), sp("Application/XML;charset"), sp("a/b/c;;=;"), sp("application/json"),
 }
 
+// further spellings (other letter case, blanks around the value), used outside the full
+// status sweep
+var extraCTs = []*string{sp(" application/xml "), sp("text/xml;charset=UTF-8"), sp("APPLICATION/XML"), sp("text/plain ;charset=us-ascii")}
+
 var davSets = [][]string{
 	nil, {"1"}, {"1, 2, addressbook"}, {"1", "addressbook"}, {"addressbook"}, {"1,addressbook"},
 	{"1 addressbook"}, {"ADDRESSBOOK, 1"}, {"1;addressbook"}, {"11, addressbooks"}, {"", "1\taddressbook"},
@@ -124,7 +128,7 @@ func generate(emit func(caseIn)) {
 		for _, m := range methods {
 			for i, ct := range contentTypes {
 				for j, b := range errDocs {
-					if !thorough && j == 2 && (i+st)%4 != 0 {
+					if !thorough && j == 2 && (i+st)%8 != 0 {
 						continue
 					}
 					c := base(m, st)
@@ -228,7 +232,7 @@ func generate(emit func(caseIn)) {
 	// 3. raw bodies x content types x a few statuses, for every method
 	for _, m := range methods {
 		for _, rn := range rawNames {
-			for _, ct := range contentTypes {
+			for _, ct := range append(append([]*string{}, contentTypes...), extraCTs...) {
 				for _, st := range []int{200, 207, 403, 500} {
 					c := base(m, st)
 					c.r.ct = ct
@@ -386,8 +390,148 @@ func generate(emit func(caseIn)) {
 		}
 	}
 
+	// 6c. BODY DELIVERY (generator audit, item 4): the same answers in every form a transport
+	//     can hand a body over — unknown length, Content-Length longer / shorter than the bytes,
+	//     data together with io.EOF, one byte per Read, a Close that fails, http.NoBody, and
+	//     really chunked through net/http's transport from an httptest.Server
+	errXML := docs["daverror"].render()
+	for _, m := range methods {
+		var variants []caseIn
+		variants = append(variants, okCase(m))
+		e := base(m, 403)
+		e.r.ct, e.r.body = sp("application/xml"), errXML
+		variants = append(variants, e)
+		e = base(m, 500)
+		e.r.ct, e.r.body = sp("text/plain"), strings.Repeat("server error text ", 80)
+		variants = append(variants, e)
+		e = base(m, 207)
+		e.r.ct, e.r.body = sp("application/xml"), docs["locked"].render()
+		variants = append(variants, e)
+		e = okCase(m)
+		e.r.body = ""
+		variants = append(variants, e)
+		if minfo[m].ms {
+			full := homeBody(m)
+			e = okCase(m)
+			e.r.body = full[:len(full)*2/3]
+			variants = append(variants, e)
+			if thorough {
+				for _, dn := range msDocs {
+					e = base(m, 207)
+					e.r.ct, e.r.body = sp("application/xml"), docs[dn].render()
+					variants = append(variants, e)
+				}
+			}
+		}
+		for _, v := range variants {
+			for d := 1; d < nDeliv; d++ {
+				c := v
+				c.r.deliv = d
+				if d == delivRealTransport && !realOK(&c.r) {
+					continue
+				}
+				emit(c)
+			}
+		}
+	}
+
 	// 7. seeded random cases
 	rng := hx.NewRand(hx.Seed())
+
+	// 6d. HISTORY (items 1-3): sequences of calls on ONE client value of each type, with the
+	//     shared request values, results of earlier steps kept and compared again at the end;
+	//     every step is a case of its own (its history is part of the input and is re-executed
+	//     on replay).  All ordered pairs of methods with their plain answers; per method
+	//     error->ok, ok->error, long->short, decode failure->ok; random sequences of 2-5 calls.
+	endpoints := []string{"", "http://dav.example.com", "HTTP://DAV.EXAMPLE.COM:80/base/", "https://user@dav.example.com/base", "http://dav.example.com//a/./b/"}
+	emitSeq := func(ep string, steps []caseIn) {
+		for i := range steps {
+			c := steps[i]
+			c.hist = append([]caseIn(nil), steps[:i]...)
+			c.endpoint = ep
+			emit(c)
+		}
+	}
+	errCase := func(m string, st int) caseIn {
+		c := base(m, st)
+		c.r.ct, c.r.body = sp("application/xml"), errXML
+		return c
+	}
+	for i, m1 := range methods {
+		for j, m2 := range methods {
+			emitSeq(endpoints[(i+j)%len(endpoints)], []caseIn{okCase(m1), okCase(m2)})
+		}
+		bad := okCase(m1)
+		bad.r.body = "<not-xml"
+		emitSeq("", []caseIn{errCase(m1, 423), okCase(m1)})
+		emitSeq("", []caseIn{okCase(m1), errCase(m1, 404), okCase(m1)})
+		emitSeq("", []caseIn{bad, okCase(m1)})
+		tr := base(m1, 0)
+		tr.r.terr = true
+		emitSeq("", []caseIn{tr, okCase(m1), tr})
+		if minfo[m1].ms {
+			for _, dn := range []string{"readdir", "calendars", "addressbooks", "sync", "cardobjects", "calobjects"} {
+				long := base(m1, 207)
+				long.r.ct, long.r.body = sp("application/xml"), docs[dn].render()
+				emitSeq("", []caseIn{long, okCase(m1), long})
+			}
+		}
+	}
+	randomCase := func() caseIn {
+		m := methods[rng.Intn(len(methods))]
+		c := okCase(m)
+		switch rng.Intn(6) {
+		case 0:
+			c = errCase(m, []int{301, 403, 404, 423, 500, 507}[rng.Intn(6)])
+		case 1:
+			if dn := docNames[rng.Intn(len(docNames))]; true {
+				c.r.ct, c.r.body = sp("application/xml"), docs[dn].render()
+			}
+		case 2:
+			if minfo[m].ms {
+				doc := docs[minfo[m].home]
+				if pls := placements(doc); len(pls) > 0 {
+					c.r.body = place(doc, pls[rng.Intn(len(pls))]).render()
+				}
+			}
+		}
+		if rng.Chance(1, 4) {
+			c.r.deliv = rng.Intn(nDeliv)
+			if c.r.deliv == delivRealTransport && !realOK(&c.r) {
+				c.r.deliv = delivOneByte
+			}
+		}
+		return c
+	}
+	nSeq, nRounds := 900, 30
+	if thorough {
+		nSeq, nRounds = 15000, 400
+	}
+	for i := 0; i < nSeq; i++ {
+		var steps []caseIn
+		for k := 2 + rng.Intn(4); k > 0; k-- {
+			steps = append(steps, randomCase())
+		}
+		emitSeq(endpoints[rng.Intn(len(endpoints))], steps)
+	}
+
+	// 6e. OVERLAP (item 7): all methods at once on one client set, each with its own answer
+	for i := 0; i < nRounds; i++ {
+		var calls []caseIn
+		for k, m := range methods {
+			if m == "FindCurrentUserPrincipal" || m == "HasSupport" {
+				continue // their request path is fixed, the answers are routed by path
+			}
+			c := randomCase()
+			for c.method != m {
+				c = randomCase()
+			}
+			c.r.deliv = 0
+			c.path = fmt.Sprintf("/ovl%d%s", k, c.path)
+			calls = append(calls, c)
+		}
+		emit(caseIn{method: "OVERLAP", hist: calls})
+	}
 	nRandom, nMalformed := 40000, 15000
 	if thorough {
 		nRandom, nMalformed = 400000, 150000
@@ -440,6 +584,9 @@ func generate(emit func(caseIn)) {
 			c.r.ct = xmlCTs[rng.Intn(len(xmlCTs))]
 			emit(c)
 			continue
+		}
+		if rng.Chance(1, 8) {
+			c.r.deliv = 1 + rng.Intn(nDeliv-2)
 		}
 		if dn != "" {
 			doc := docs[dn]
